@@ -206,7 +206,8 @@ def _loops_in_order(fd):
 
 
 class LoopSpec:
-    def __init__(self, inv=None, modifies=(), types=None, name=None):
+    def __init__(self, inv=None, modifies=(), types=None, name=None, at_head=None):
+        self.at_head = at_head  # called at the start of the iteration path (lemma instances)
         self.inv = inv
         self.modifies = list(modifies)
         self.types = dict(types or {})
@@ -1230,6 +1231,8 @@ class Interp:
         if which == 0:
             CTX.assume(z3.And(zs <= iv.t, iv.t < ze))
             self._assume_inv(spec, scope, old, {})
+            if spec.at_head is not None:
+                spec.at_head(NS(scope, old, {}))
             r = self._run_body(s.body, scope)
             if r == "break":
                 return
